@@ -54,3 +54,39 @@ def c09_weights(inp, obligation):
     if not inp["modified"] and any(v < -1e-15 * scale for v in w):
         bad.append("negative weight")
     return bool(bad), {"grid": x, "modified": inp["modified"], "weights": w, "violations": bad[:5]}
+
+
+@handler("C09.set_grid")
+def c09_set_grid(inp, obligation):
+    """the real GlobalGrid.set_grid (GlobalTrapezoidalGrid) on sorted refinement-tree-like point sets of several sizes per dimension: the grid keeps the handed-in
+    points (without the two boundary points when they are off) and each kept point keeps its own weight and level; the counts agree"""
+    import numpy as np
+    from sparseSpACE.Grid import GlobalTrapezoidalGrid
+    nd, boundary = int(inp["ndim"]), bool(inp["boundary"])
+    rng = np.random.RandomState(7)
+    bad = []
+    sizes = [3, 4, 5, 9] if not boundary else [2, 3, 5, 9]
+    for trial in range(12):
+        a, b = np.zeros(nd), np.ones(nd) * 2.0
+        pts, lvs = [], []
+        for d in range(nd):
+            n = sizes[(trial + d) % len(sizes)]
+            inner = np.sort(rng.uniform(0.05, 1.95, n - 2)) if n > 2 else np.array([])
+            pts.append(np.concatenate(([0.0], inner, [2.0])))
+            lvs.append(np.array([0] + list(rng.randint(1, 5, n - 2)) + [0]))
+        g = GlobalTrapezoidalGrid(a, b, boundary=boundary)
+        g.set_grid([p.copy() for p in pts], [l.copy() for l in lvs])
+        for d in range(nd):
+            ref_w = np.asarray(g.compute_1D_quad_weights(pts[d], a[d], b[d], d, grid_levels_1D=lvs[d]), dtype=float)
+            sl = slice(None) if boundary else slice(1, -1)
+            want = (pts[d][sl], ref_w[sl], lvs[d][sl])
+            got = (np.asarray(g.coordinate_array[d], float), np.asarray(g.weights[d], float), np.asarray(g.levels[d]))
+            names = ("points", "weights", "levels")
+            for nm, w_, g_ in zip(names, want, got):
+                if len(w_) != len(g_) or not np.allclose(np.asarray(w_, float), np.asarray(g_, float)):
+                    bad.append("dimension %d of %d, %d points, boundary=%r: kept %s %r, expected %r" % (d, nd, len(pts[d]), boundary, nm, np.asarray(g_).tolist(), np.asarray(w_).tolist()))
+            if int(g.numPoints[d]) != len(want[0]) or int(g.numPointsWithBoundary[d]) != len(pts[d]):
+                bad.append("dimension %d: reports %r points (%r with boundary), keeps %d of %d" % (d, g.numPoints[d], g.numPointsWithBoundary[d], len(want[0]), len(pts[d])))
+        if bad:
+            break
+    return bool(bad), {"violations": bad[:4]}
